@@ -1965,6 +1965,12 @@ def argwhere(a):
     return ndarray.from_elem(lambda idx: sel(idx[0]), (count, a.ndim), "int64")
 
 
+def isclose(a, b, rtol=1e-05, atol=1e-08):
+    """numpy: |a - b| <= atol + rtol * |b| (finite operands)"""
+    d = subtract(a, b)
+    return less_equal(absolute(d), add(atol, multiply(rtol, absolute(b))))
+
+
 def shares_memory(a, b):
     """numpy: True when the two arrays overlap in memory; in the stub views of one buffer do"""
     return asarray(a).buf is asarray(b).buf
